@@ -257,7 +257,9 @@ fn run(prop: Prop, ctx: &Ctx, rep: &mut Report) {
     let pre = prefixes();
     let full_len3: Vec<&str> = vec!["raw", "v1-con-get-tkl0"];
     for (pi, (name, head)) in pre.iter().enumerate() {
-        let maxlen: u32 = if ctx.thorough() && name == "v1-con-get-tkl0" {
+        // the 2^32 family runs in configuration oc (C02) / oc and rel (C03) only
+        let four = ctx.thorough() && name == "v1-con-get-tkl0" && (ctx.config == "oc" || (prop == Prop::C03 && ctx.config == "rel"));
+        let maxlen: u32 = if four {
             4 // every possible 4-byte continuation of a plain header: 2^32 inputs
         } else if ctx.thorough() || full_len3.contains(&name.as_str()) {
             3
